@@ -76,7 +76,11 @@ RULE = ("(a) direct calls of kvarn_utils::parse::sanitize_request (on an http::R
         "token strings of length <= 3 (quick) / <= 4 (thorough) with and without default extensions and of length 5 with them (thorough), traversal spellings (single, double "
         "and triple encodings, backslashes, overlong forms) x prefixes x leaves that the default folder/extension expansion turns into "
         "sentinel names, token strings ending in '/', '.', their single and double encodings, mixed histories with repeated targets, "
-        "poisoned-cache histories. distinct_nontrivial counts distinct (component, input, model outcome class) triples; batch cases count "
+        "poisoned-cache histories. (c) a part of the same scenarios (the hand-written list under the four extensions x cache combinations, "
+        "mixed / traversal / poisoned-cache histories) through the front door: the requests are written as HTTP/1.1 text over a loopback "
+        "TCP connection to a real kvarn server started with RunConfig::execute on the fixture host (request parsing, host selection, "
+        "handle_cache, SendKind::send), compared with the same model (a HEAD answer has no body; a request the server answers by closing "
+        "the connection counts as refused) and checked by the same oracles. distinct_nontrivial counts distinct (component, input, model outcome class) triples; batch cases count "
         "once each, their targets are reported as targets_in_batches, pipeline requests as pipeline_requests")
 ASSUMPTIONS = [
     "no symbolic links below or at the public directory and a case-sensitive POSIX file system (the tree model of theorems 1b/1c/6)",
@@ -92,7 +96,8 @@ ASSUMPTIONS = [
     "modelled as far as C01 needs them (path only: the fixture never uses ServerCachePreference::QueryMatters; no If-Modified-Since, no "
     "Vary rules — C03/C04's subject); theorems 2b/7 show it is bypassed for unsafe paths whatever it contains",
     "error::default reads <host.path>/errors/<status>.html by design; the fixture has no such files",
-    "sequential histories (one request at a time)",
+    "sequential histories (one request at a time); HTTP/1.1 without TLS on the loopback variant (HTTP/2, HTTP/3 and TLS front ends build the "
+    "same http::Request and call the same handle_cache, but are not driven here)",
 ]
 TRUSTED = ["modelled: utils/src/parse.rs sanitize_request (path part), parse::uri; utils/src/lib.rs percent_decode, make_path; src/lib.rs "
            "handle_cache / get_response / handle_request / maybe_cache as far as sanitize result, cache key and filling, path "
@@ -101,7 +106,8 @@ TRUSTED = ["modelled: utils/src/parse.rs sanitize_request (path part), parse::ur
            "src/host.rs default_status_code_cache_filter; percent_encoding::percent_decode, core::str::from_utf8 and "
            "String::from_utf8_lossy are transcribed and compared with the real functions on every run",
            "the pipeline harness harness/src/c01pipe.rs + c00pipe.rs (fixture on disk under .run/<pid>-<n>/, request construction, "
-           "canonicalisation of kvarn's HTML error pages to 'ERRPAGE', content-decoding of bodies) and the Python oracles in "
+           "canonicalisation of kvarn's HTML error pages to 'ERRPAGE', content-decoding of bodies; for the loopback variant a minimal HTTP/1.1 "
+           "client: one request at a time, responses framed by content-length, 8 s read timeouts, port chosen by the kernel) and the Python oracles in "
            "driver/props/c01.py (sentinel search, status-400 rule against the Coq spec component pathsanpipe.spec, CORS rule)"]
 EXHAUSTIVE = False
 KERNEL_SAMPLE = 40
@@ -221,6 +227,7 @@ HANDLERS = [(b"/h", b"HANDLER-h", 2), (b"/a/a.html", b"HANDLER-a-a-html", 0), (b
             (b"/aa.html", b"HANDLER-aa-html", 2)]
 METHODS = [b"GET", b"HEAD", b"POST", b"OPTIONS"]
 INTERNAL_STATUS = (403, 204)
+PIPE_COMPS = ("pathsanpipe.run", "pathsanpipe.wire")
 ALIAS = "alias"   # pseudo method of a history step (ALIAS, from, to): copy the response-cache entry under `from` to the key `to`
 UNSAFE_TARGETS = [b"/../secret.txt", b"/./cors_fail", b"/./cors_options", b"//etc/passwd", b"/%2e%2e/secret.txt", b"/a/../index.html", b"/../",
                   b"/..%2fsecret.txt", b"/%2e/cors_fail", b"/a/./a", b"/../secret.", b"/.%2e/index.html", b"//", b"/%2f", b"/../../outside.txt",
@@ -256,9 +263,9 @@ def pipe_cfg(default_ext, cache, fcache, public):
     return _FIX[key]
 
 
-def pipe_case(cfgkey, reqs, kind):
+def pipe_case(cfgkey, reqs, kind, wire=False):
     ops = [xl(xn(1), xb(t), xb(k)) if m is ALIAS else xl(xb(m), xb(t), xn(k)) for m, t, k in reqs]
-    return Case("pathsanpipe.run", xl(pipe_cfg(*cfgkey), xlist(ops)), "pathsanpipe.spec",
+    return Case("pathsanpipe.wire" if wire else "pathsanpipe.run", xl(pipe_cfg(*cfgkey), xlist(ops)), "pathsanpipe.wire_spec" if wire else "pathsanpipe.spec",
                 {"kind": kind, "requests": sum(1 for r in reqs if r[0] is not ALIAS), "cfg": cfgkey})
 
 
@@ -417,6 +424,17 @@ def pipe_cases(rng, tier):
     for _ in range(n):
         de = rng.random() < 0.6
         cases.append(pipe_case((de, True, rng.random() < 0.5, rng.choice(PUBLIC_DIRS)), poisoned_history(rng, de), "pipe-poisoned-cache"))
+    # 8. the same through the front door: HTTP/1.1 text to a real kvarn server (RunConfig::execute) on a loopback port
+    for de in (True, False):
+        for ca in (True, False):
+            for ch in chunks(directed, 30):
+                cases.append(pipe_case((de, ca, ca, b"public"), [(b"GET", t, 0) for t in ch], "wire-directed", wire=True))
+    for _ in range(n // 4):
+        cases.append(pipe_case(rand_cfgkey(rng), history(rng, rng.randrange(10, 31)), "wire-history", wire=True))
+        cases.append(pipe_case(rand_cfgkey(rng), [(b"GET" if rng.random() < 0.8 else rng.choice(METHODS), climb_target(rng), 0) for _ in range(25)],
+                               "wire-climb", wire=True))
+        de = rng.random() < 0.6
+        cases.append(pipe_case((de, True, rng.random() < 0.5, rng.choice(PUBLIC_DIRS)), poisoned_history(rng, de), "wire-poisoned-cache", wire=True))
     return cases
 
 
@@ -458,7 +476,7 @@ def pipe_spec_ok(c, i, s):
             c.meta["why"] = ("unsafe path not rejected: " if f[1] == 1 else "safe path rejected with 400: ") + _req_text(c, idx, r) + \
                 " -> status %d body %r" % (status, body[:80])
             return False
-        if status == 400 and (body != b"ERRPAGE" or log):
+        if status == 400 and ((body != b"ERRPAGE" and not (c.comp == "pathsanpipe.wire" and r[1][0][1] == b"HEAD" and body == b"")) or log):
             c.meta["why"] = "400 but a Prepare extension was consulted or content returned: " + _req_text(c, idx, r) + " -> " + kv.pretty(o)
             return False
     return True
@@ -480,7 +498,7 @@ def _allowed_bodies(c):
 def extra_oracle(c, i):
     """model-independent: (a) no sentinel content from outside the public directory in any body; (c) the internal CORS handlers answer
     only when a CORS Prime extension produced the override (never for a request without a foreign Origin / preflight headers)"""
-    if c.comp != "pathsanpipe.run":
+    if c.comp not in PIPE_COMPS:
         return None
     if "pinned" in c.meta and i != c.meta["pinned"]:
         return "the real pipeline's answers differ from the value of Example ex_history computed by the Coq kernel: " + i
@@ -499,7 +517,8 @@ def extra_oracle(c, i):
         if not may_override and (status in INTERNAL_STATUS or body == CORS_DENIED):
             return "an internal /./cors_* handler answered a request no CORS Prime extension rerouted: " + _req_text(c, idx, r) + \
                 " -> status %d body %r" % (status, body[:80])
-        if status == 200 and body not in _allowed_bodies(c):
+        head_on_wire = c.comp == "pathsanpipe.wire" and m == b"HEAD" and body == b""
+        if status == 200 and body not in _allowed_bodies(c) and not head_on_wire:
             return "200 with a body that is neither a public file's content nor a handler's: " + _req_text(c, idx, r) + " -> %r" % body[:80]
     return None
 
@@ -543,7 +562,7 @@ def generate(rng, tier):
 
 
 def spec_ok(c, i, s):
-    if c.comp == "pathsanpipe.run":
+    if c.comp in PIPE_COMPS:
         return pipe_spec_ok(c, i, s)
     if c.comp == "pathsan.batch":
         return i == s
@@ -559,7 +578,7 @@ def spec_ok(c, i, s):
 
 
 def signature(c, m):
-    if c.comp == "pathsanpipe.run":
+    if c.comp in PIPE_COMPS:
         return "pipe"
     if c.comp == "pathsan.direct":
         v = kv.xparse(m)
@@ -588,10 +607,12 @@ LEVEL_NOTE = ("Trusted: Coq kernel, extraction (ExtrOcamlBasic) reduced by an in
               "symlinks), the pipeline harness. No axioms. One defect repaired on the way (sanitize tested the undecoded text when the "
               "decoding was not UTF-8).")
 TECHNIQUE = ("Coq proof (model satisfies spec for all inputs and all histories) + differential correspondence model vs. implementation "
-             "(direct calls and the in-process pipeline kvarn::handle_cache on a fixture tree) + model-independent oracles on the pipeline answers")
+             "(direct calls, the in-process pipeline kvarn::handle_cache on a fixture tree, and a real server over loopback HTTP/1.1) + "
+             "model-independent oracles on the pipeline answers")
 
 
 def extra_coverage(cases, impl, model, spec):
-    pc = [c for c in cases if c.comp == "pathsanpipe.run"]
+    pc = [c for c in cases if c.comp in PIPE_COMPS]
     return {"targets_in_batches": sum(c.meta.get("targets", 0) for c in cases if c.comp == "pathsan.batch"),
-            "pipeline_histories": len(pc), "pipeline_requests": sum(c.meta.get("requests", 0) for c in pc)}
+            "pipeline_histories": len(pc), "pipeline_requests": sum(c.meta.get("requests", 0) for c in pc),
+            "of_which_over_loopback_http1": sum(c.meta.get("requests", 0) for c in pc if c.comp == "pathsanpipe.wire")}
